@@ -30,6 +30,8 @@ pub enum ModelParseError {
     DeserializeError(#[from] DeserializeError),
     #[error("Failed to parse pattern")]
     PatternParseError,
+    #[error("A tree refers to an undefined question or node")]
+    MalformedTree,
 
     #[error("Stream was not found")]
     StreamNotFound,
